@@ -95,6 +95,28 @@ def cloud(cls, rng, n):
             t = rng.uniform(0, 2 * np.pi, n)
             p = np.c_[r * np.cos(t), r * np.sin(t)]
         return p * rng.uniform(0.5, 3, size=2) + rng.uniform(-2, 2, size=2)
+    if cls in ("int64", "int32"):       # whole-number data in an integer array: many ties
+        c = rng.uniform(-20, 40, size=2)
+        A = rng.normal(size=(2, 2)) * float(rng.uniform(2, 8))
+        p = np.round(c + rng.standard_normal((n, 2)) @ A.T)
+        return p.astype(np.int64 if cls == "int64" else np.int32)
+    if cls == "float32":
+        c = rng.uniform(-5, 5, size=2)
+        A = rng.normal(size=(2, 2))
+        return (c + rng.standard_normal((n, 2)) @ A.T).astype(np.float32)
+    if cls == "pareto02":               # radius with tail index 0.2: largest values ~ n^5
+        r = (1 - rng.random(n)) ** (-1 / 0.2)
+        t = rng.uniform(0, 2 * np.pi, n)
+        return np.c_[r * np.cos(t), r * np.sin(t)] * rng.uniform(0.5, 3, size=2) + rng.uniform(-2, 2, size=2)
+    if cls == "t025":                   # Student t with 0.25 degrees of freedom
+        return rng.standard_t(0.25, size=(n, 2)) * rng.uniform(0.5, 3, size=2) + rng.uniform(-2, 2, size=2)
+    if cls == "outlier":                # Gaussian cloud plus one point at 1e15 .. 1e17
+        c = rng.uniform(-5, 5, size=2)
+        A = rng.normal(size=(2, 2))
+        p = c + rng.standard_normal((n, 2)) @ A.T
+        t = rng.uniform(0, 2 * np.pi)
+        p[int(rng.integers(0, n))] = 10 ** rng.uniform(15, 17) * np.array([math.cos(t), math.sin(t)])
+        return p
     if cls == "ring":   # non-convex: banana / annulus sector
         t = rng.uniform(0, float(rng.uniform(1.0, 2 * np.pi)), n)
         r = float(rng.uniform(2, 5)) + 0.3 * rng.standard_normal(n)
@@ -159,7 +181,7 @@ def execute(vc, case, quick):
 # measurement (independent of virocon's direction table)
 
 
-def _eval_dir(P, norms, rc, phi_deg, pts, n, alpha):
+def _eval_dir(P, norms, lev, phi_deg, pts, n, alpha):
     """Project the sample and the given points on the direction phi: offsets of the points,
     reference quantile (order statistics lo, lo+1 and linear interpolation at (n-1)(1-alpha)),
     counts relative to the first point's offset."""
@@ -172,17 +194,69 @@ def _eval_dir(P, norms, rc, phi_deg, pts, n, alpha):
     hi = min(lo + 1, n - 1)
     part = np.partition(z, [lo, hi])
     cref = float(part[lo] + (h - lo) * (part[hi] - part[lo]))
-    eps = 1e-9 * (rc + norms)
+    clo = chi = cref
+    if float(norms.max()) * 1e-15 > 1e-8 * max(abs(cref), 1e-300):
+        # conditioning of the reference: cos / sin of a float angle are accurate to a few 1e-16, and a
+        # sample point moves by (its tangential coordinate) * 1e-16 in the projection.  With points at
+        # 1e15 and beyond the quantile itself is only defined up to that.  The quantile is monotone in
+        # every projection, so the quantiles of z -+ d |t| bracket it for every direction within d.
+        d = 2e-15
+        tang = np.abs(-P[:, 0] * ny + P[:, 1] * nx)
+        for sgn in (-1.0, 1.0):
+            p2 = np.partition(z + sgn * d * tang, [lo, hi])
+            c2 = float(p2[lo] + (h - lo) * (p2[hi] - p2[lo]))
+            clo, chi = min(clo, c2), max(chi, c2)
+    eps = 1e-12 * (lev + norms)
     above = int((z > offs[0] + eps).sum())
     atleast = int((z >= offs[0] - eps).sum())
-    return offs, cref, above, atleast
+    return offs, (cref, clo, chi), above, atleast
+
+
+def _wrap(x, period):
+    return (x + period / 2.0) % period - period / 2.0
+
+
+def _snap_to_grid(phi, longs, weight, step):
+    """The measured normals lie on a grid origin + k * step.  The origin is estimated from the
+    largest cluster of the residuals (phi mod step), weighted by the squared relative edge length,
+    and every measured normal within 1e-6 degree of a grid direction is replaced by it: the
+    direction error drops from ~1e-10 rad (a single edge) to ~1e-15 rad, which matters when the
+    point that fixes the quantile is a far tail point (lever arm |p| times direction error).
+    Normals off the grid are left as measured (StepExact rejects them anyway)."""
+    if not longs:
+        return dict()
+    rho = np.array([_wrap(phi[j] - phi[longs[0]], step) for j in longs])
+    diff = np.abs(_wrap(rho[:, None] - rho[None, :], step)) < 1e-6
+    c = rho[int(np.argmax(diff.sum(axis=1)))]
+    sel = np.abs(_wrap(rho - c, step)) < 1e-6
+    w = np.array([weight[j] for j in longs])[sel]
+    origin = phi[longs[0]] + c + float(np.sum(w * _wrap(rho[sel] - c, step)) / np.sum(w))
+    out = {}
+    for j in longs:
+        k = round((phi[j] - origin) / step)
+        psi = origin + k * step
+        out[j] = psi % 360.0 if abs(_wrap(phi[j] - psi, 360.0)) <= 1e-6 else phi[j]
+    return out
+
+
+def _collinear(P):
+    """all sample points on one straight line (robust against single huge outliers)"""
+    p0 = np.median(P, axis=0)
+    d = P - p0
+    r = np.hypot(d[:, 0], d[:, 1])
+    ok = r > 0
+    if ok.sum() < 2:
+        return True
+    ux, uy = d[ok, 0] / r[ok], d[ok, 1] / r[ok]
+    return bool(np.all(np.abs(ux * uy[0] - uy * ux[0]) < 1e-9))
 
 
 def measure(coords, sample, a, b, step):
     """Per long edge: outward normal (micro-degrees), offsets of both end points, reference
     quantile, counts, number of short edges up to the next long edge.  Per short edge: the
     same at the two directions it can stand for (counted from the long edge before / after).
-    Returns (contour_fields, edge_list)."""
+    Every edge record carries its own power-of-ten scale (offsets of one polygon can differ by
+    many orders of magnitude for very heavy tails).  Returns (contour_fields, edge_list)."""
     V = np.asarray(coords, dtype=float)
     P = np.asarray(sample, dtype=float)
     E = len(V)
@@ -190,18 +264,16 @@ def measure(coords, sample, a, b, step):
     alpha = a / b
     finite = bool(np.isfinite(V).all()) and V.ndim == 2 and V.shape[1] == 2
     norms = np.hypot(P[:, 0], P[:, 1])
-    rs = float(norms.max())
     if not finite:
         bad = [int(j) for j in np.nonzero(~np.isfinite(V).all(axis=1))[0]] if V.ndim == 2 else []
-        return dict(finite=False, badvertices=bad, E=E, n=n, rs=rs), []
-    rc = float(np.median(np.hypot(V[:, 0], V[:, 1])))
-    rc = max(rc, 1e-300)
-    sv = np.linalg.svd(P - P.mean(axis=0), compute_uv=False)
-    collinear = bool(sv[1] <= 1e-6 * sv[0])       # not a 2-D sample: all points on one line
+        return dict(finite=False, badvertices=bad, E=E, n=n), []
     W = np.roll(V, -1, axis=0)
     D = W - V
     L = np.hypot(D[:, 0], D[:, 1])
-    short = L < SHORT_REL * rc
+    # lever arm of an edge: its vertices are accurate to ~1e-16 / sin(step) of their distance from the origin
+    lev = np.maximum(np.maximum(np.hypot(V[:, 0], V[:, 1]), np.hypot(W[:, 0], W[:, 1])), 1e-300)
+    short = L < SHORT_REL * lev
+    collinear = _collinear(P)
     phi = np.full(E, np.nan)
     alt = {}                                   # long edges whose line is a tangent for BOTH normals
     kmax = -((-a * (n - 1)) // b)              # ceil(alpha (n-1))
@@ -212,7 +284,7 @@ def measure(coords, sample, a, b, step):
         nx, ny = D[j, 1] / L[j], -D[j, 0] / L[j]
         z = P[:, 0] * nx + P[:, 1] * ny
         o = V[j, 0] * nx + V[j, 1] * ny
-        eps = 1e-9 * (rc + norms)
+        eps = 1e-12 * lev[j] + 1e-10 * norms     # measured direction: ~6e-11 rad times the lever arm |p|
         ca = int((z > o + eps).sum())           # beyond the line on the side of (nx, ny)
         cb = int((z < o - eps).sum())           # beyond the line on the other side
         on = n - ca - cb
@@ -224,8 +296,6 @@ def measure(coords, sample, a, b, step):
         if cb <= kmax and cb + on >= kmin and ca <= kmax and ca + on >= kmin:
             alt[j] = (phi[j] + 180.0) % 360.0
     longs = [int(j) for j in np.nonzero(~short)[0]]
-    scale = 10.0 ** math.floor(9 - math.log10(max(rs, rc)))
-    qq = lambda x: Qc(x, scale, -CLAMP, CLAMP)
     u = lambda p: int(round(p * 1e6)) % FULL
     K = len(longs)
     if alt and K > 1:
@@ -240,26 +310,36 @@ def measure(coords, sample, a, b, step):
                                + int(adv_ok(u(c), u(phi[jn]), gap_n, step)))
             if score(alt[j]) > score(phi[j]):
                 phi[j], alt[j] = alt[j], phi[j]
+    psi = _snap_to_grid(phi, longs, (L / lev) ** 2, step)     # directions used for the projections
+
+    def rec_of(kind, j, evals, **extra):
+        """evals: list of (offs, cref, above, atleast); one scale per record"""
+        mx = max([abs(v) for offs, cr, _, _ in evals for v in list(offs) + list(cr)] + [1e-9 * lev[j], 1e-200])
+        scale = 10.0 ** math.floor(9 - math.log10(mx))
+        qq = lambda x: Qc(x, scale, -CLAMP, CLAMP)
+        r = dict(kind=kind, j=j, lev=Qc(lev[j] * scale, 1.0, 0, CLAMP), **extra)
+        for t, (offs, cr, above, atleast) in enumerate(evals):
+            sfx = "" if t == 0 else "2"
+            r.update({"offa" + sfx: qq(offs[0]), "offb" + sfx: qq(offs[1]), "cref" + sfx: qq(cr[0]),
+                      "clo" + sfx: qq(cr[1]), "chi" + sfx: qq(cr[2]),
+                      "above" + sfx: above, "atleast" + sfx: atleast})
+        return r
+
     edges = []
     for t, j in enumerate(longs):
         jn = longs[(t + 1) % len(longs)]
         gap = (jn - j - 1) % E if len(longs) > 1 else E - 1
-        offs, cref, above, atleast = _eval_dir(P, norms, rc, phi[j], [V[j], W[j]], n, alpha)
-        edges.append(dict(kind="edge", j=j, jn=jn, gap=int(gap), phi=u(phi[j]), phin=u(phi[jn]),
-                          offa=qq(offs[0]), offb=qq(offs[1]), cref=qq(cref), above=above, atleast=atleast))
+        ev = _eval_dir(P, norms, lev[j], psi[j], [V[j], W[j]], n, alpha)
+        edges.append(rec_of("edge", j, [ev], jn=jn, gap=int(gap), phi=u(phi[j]), phin=u(phi[jn])))
         # the short edges between this long edge and the next one
         for i in range(1, gap + 1):
             js = (j + i) % E
-            fw = (phi[j] - i * step) % 360.0
-            bw = (phi[jn] + (gap - i + 1) * step) % 360.0
-            of, cf_, af, tf = _eval_dir(P, norms, rc, fw, [V[js], W[js]], n, alpha)
-            ob, cb_, ab, tb = _eval_dir(P, norms, rc, bw, [V[js], W[js]], n, alpha)
-            edges.append(dict(kind="short", j=js,
-                              offa=qq(of[0]), offb=qq(of[1]), cref=qq(cf_), above=af, atleast=tf,
-                              offa2=qq(ob[0]), offb2=qq(ob[1]), cref2=qq(cb_), above2=ab, atleast2=tb))
-    cf = dict(finite=True, E=E, n=n, rs=Q(rs, scale), rc=Q(rc, scale), scale=scale,
-              degenerate=len(longs) == 0 or collinear, nlong=len(longs), longs=longs, ambiguous=len(alt),
-              phis=[u(phi[j]) for j in longs],
+            fw = (psi[j] - i * step) % 360.0
+            bw = (psi[jn] + (gap - i + 1) * step) % 360.0
+            edges.append(rec_of("short", js, [_eval_dir(P, norms, lev[js], fw, [V[js], W[js]], n, alpha),
+                                              _eval_dir(P, norms, lev[js], bw, [V[js], W[js]], n, alpha)]))
+    cf = dict(finite=True, E=E, n=n, degenerate=len(longs) == 0 or collinear, nlong=len(longs), longs=longs,
+              ambiguous=len(alt), phis=[u(phi[j]) for j in longs],
               gaps=[e["gap"] for e in edges if e["kind"] == "edge"])
     return cf, edges
 
@@ -317,7 +397,7 @@ def make_records(batch, ci, case, ex):
         base.update(phis=cf["phis"], gaps=cf["gaps"])
     batch.add(base, ci, "contour", -1)
     for e in ([] if cf["degenerate"] else edges):
-        rec = dict(step=step, a=a, b=b, n=n, rc=cf["rc"], rs=cf["rs"])
+        rec = dict(step=step, a=a, b=b, n=n)
         rec.update({k: v for k, v in e.items() if k not in ("j", "jn")})
         batch.add(rec, ci, e["kind"], e["j"], e.get("jn", -1))
     return cf
@@ -360,11 +440,12 @@ SELFTEST_BASE = 1_000_000_000
 def selftest_records():
     """Synthetic records: the three good ones must be accepted, every corrupted copy must be
     rejected by the clause it violates (independent of the tree under test)."""
-    common = dict(step=10, a=1, b=10, n=101, rc=1_000_000, rs=2_000_000)
+    common = dict(step=10, a=1, b=10, n=101, lev=1_000_000)
     edge = dict(common, kind="edge", gap=0, phi=90_000_000, phin=80_000_000,
-                offa=500_000, offb=500_001, cref=499_999, above=10, atleast=11)
-    shortr = dict(common, kind="short", offa=500_000, offb=500_000, cref=500_000, above=10, atleast=11,
-                  offa2=700_000, offb2=700_000, cref2=500_000, above2=0, atleast2=0)
+                offa=500_000, offb=500_001, cref=499_999, clo=499_999, chi=499_999, above=10, atleast=11)
+    shortr = dict(common, kind="short", offa=500_000, offb=500_000, cref=500_000, clo=500_000, chi=500_000,
+                  above=10, atleast=11,
+                  offa2=700_000, offb2=700_000, cref2=500_000, clo2=500_000, chi2=500_000, above2=0, atleast2=0)
     cont = dict(kind="contour", step=10, a=1, b=10, exc="", finite=True, degenerate=False,
                 phis=[((90 - 10 * k) % 360) * 1_000_000 for k in range(36)], gaps=[0] * 36,
                 defaultn=True, givenn=0, nsample=1000, samplekept=True, ncol=2, n=1000)
@@ -391,7 +472,9 @@ def selftest_records():
     put(edge, None, gap=1, phin=80_000_000)
     put(edge, None, gap=1, phin=70_000_000)
     put(edge, "EdgeOnTangent", offb=500_010)
-    put(edge, "EdgeOnTangent", cref=400_000)
+    put(edge, "EdgeOnTangent", cref=400_000, clo=400_000, chi=400_000)
+    put(edge, None, clo=400_000, chi=600_000, offb=590_000)
+    put(edge, "EdgeOnTangent", clo=400_000, chi=600_000, offb=600_010)
     put(edge, "FractionBeyond", above=11)
     put(edge, "FractionBeyond", atleast=9)
     put(shortr, "EdgeOnTangent", offb=500_010)
@@ -462,7 +545,7 @@ def judge(ctx, vc, cases, label, selftest=False):
 
 def expand(ctx, gen):
     """TLC's configuration cases -> concrete seeded cases."""
-    reps = ctx.pick(1, 9)
+    reps = ctx.pick(1, 6)
     cases = []
     for rep in range(reps):
         for g in gen:
@@ -487,9 +570,10 @@ def run(ctx):
     vc = import_virocon()
     ctx.rule = ("TLC enumerates deg_step (all 19 divisors of 360 in [1,60]) x sample class (random 2-D "
                 "model draw, default-n draw from a random model / a stub model, Gaussian cloud, lattice-"
-                "rounded cloud with ties, heavy-tailed cloud, non-convex ring) x alpha class "
+                "rounded cloud with ties, heavy-tailed cloud, non-convex ring, int64 / int32 / float32 arrays, Pareto(0.2), "
+                "Student t(0.25), Gaussian cloud with one point at 1e15..1e17) x alpha class "
                 "([1e-4,1e-3],[1e-3,1e-2],[1e-2,0.1],[0.1,0.3]); the driver draws seeded data (quick 1, "
-                "thorough 9 repetitions). distinct = distinct (deg_step, class, alpha, seed); non-trivial = "
+                "thorough 6 repetitions). distinct = distinct (deg_step, class, alpha, seed); non-trivial = "
                 "finite polygon with at least N/2 edges long enough to measure their direction")
     ctx.trusted = ["TLC 1.8 evaluating spec/Trace_C03.tla / spec/DirectSampling.tla",
                    "harness/c03.py measure(): edge normals by atan2 of the end-point difference, outward = "
